@@ -63,7 +63,11 @@ type travUnit struct {
 	// construct is refused at run time with a freshly built interrupt/error (a fragment
 	// boundary of this engine), so its children are legitimately not evaluated
 	rejects bool
-	ifc     *types.Named // dispatch units: the interface dispatched on
+	// shapeTest: a niladic bool method that is not part of a node interface and whose body is
+	// `return <nil / length / flag test of receiver fields>` (HasElse, IsLiteral): an accessor
+	// for the shape of the node, not a fold over its children
+	shapeTest string
+	ifc       *types.Named // dispatch units: the interface dispatched on
 }
 
 var travPkgs = []string{"homescript/analyzer", "homescript/compiler", "homescript/interpreter", "homescript/optimizer", "homescript/fuzzer"}
@@ -394,6 +398,9 @@ func (r *travRun) enumerate() []*travUnit {
 				key:   travFuncKey(p, fd),
 				scope: travScope{pkg: p, root: fd.Body}}
 			u.soleReturn = travSoleReturnC(p.TypesInfo, fd.Body.List)
+			if role == rolePredicate && !r.isNodeInterfaceMethod(fd.Name.Name) {
+				u.shapeTest = travShapeTest(p.TypesInfo, fd)
+			}
 			units = append(units, u)
 		}
 	}
@@ -463,6 +470,7 @@ func (r *travRun) enumerate() []*travUnit {
 	type cand struct {
 		u       *travUnit
 		shallow *travReads
+		pidx    int
 	}
 	var cands []*cand
 	for _, rel := range travPkgs {
@@ -488,10 +496,24 @@ func (r *travRun) enumerate() []*travUnit {
 					u := &travUnit{pkg: p, fd: fd, fn: fn, pos: fd.Pos(), subject: s, role: role,
 						key:   travFuncKey(p, fd) + "|param " + pv.Name() + " " + s.Short(),
 						scope: travScope{pkg: p, root: fd.Body}}
-					cands = append(cands, &cand{u: u})
+					cands = append(cands, &cand{u: u, pidx: i})
 				}
 			}
 		}
+	}
+	// a function whose node parameter only ever receives freshly built values (the output under
+	// construction handed to a finishing helper: `self.copySingletonImplementations(&output)`) does not
+	// traverse an input tree: "freshly built values are not the input" holds across the call
+	{
+		fresh := r.freshOnlyParams()
+		kept := cands[:0]
+		for _, cd := range cands {
+			if fresh[cd.u.fn][cd.pidx] {
+				continue
+			}
+			kept = append(kept, cd)
+		}
+		cands = kept
 	}
 	// descends: passes code onward (a call to a module function with a code-interface argument), or has a program parameter,
 	// or calls a descending candidate with a node struct.
@@ -597,6 +619,242 @@ func (r *travRun) enumerate() []*travUnit {
 	}
 	sort.SliceStable(units, func(i, j int) bool { return units[i].key < units[j].key })
 	return units
+}
+
+// freshOnlyParams: fn -> parameter index -> true when the function has static call sites in the
+// module and at every one of them the argument is a value built right there: a composite literal,
+// the address of one, or a local that is only ever assigned such values (or left at its zero value).
+func (r *travRun) freshOnlyParams() map[*types.Func]map[int]bool {
+	m := r.m
+	type tally struct{ sites, fresh int }
+	count := map[*types.Func]map[int]*tally{}
+	var fns []*types.Func
+	for fn := range m.decls {
+		fns = append(fns, fn)
+	}
+	sort.Slice(fns, func(i, j int) bool { return fns[i].Pos() < fns[j].Pos() })
+	for _, fn := range fns {
+		d := m.decls[fn]
+		if d.Fd.Body == nil {
+			continue
+		}
+		info := d.Pkg.TypesInfo
+		// locals of this function and what they are assigned
+		assigned := map[types.Object][]ast.Expr{}
+		ast.Inspect(d.Fd.Body, func(n ast.Node) bool {
+			switch x := n.(type) {
+			case *ast.AssignStmt:
+				for i, l := range x.Lhs {
+					id, ok := ast.Unparen(l).(*ast.Ident)
+					if !ok {
+						continue
+					}
+					o := info.Defs[id]
+					if o == nil {
+						o = info.Uses[id]
+					}
+					if o == nil {
+						continue
+					}
+					if len(x.Lhs) == len(x.Rhs) {
+						assigned[o] = append(assigned[o], x.Rhs[i])
+					} else if len(x.Rhs) == 1 {
+						assigned[o] = append(assigned[o], x.Rhs[0])
+					}
+				}
+			case *ast.ValueSpec:
+				for i, id := range x.Names {
+					if o := info.Defs[id]; o != nil {
+						if len(x.Values) == len(x.Names) {
+							assigned[o] = append(assigned[o], x.Values[i])
+						} else if len(x.Values) == 0 {
+							assigned[o] = append(assigned[o], &ast.CompositeLit{}) // zero value: built here
+						}
+					}
+				}
+			case *ast.RangeStmt:
+				for _, kv := range []ast.Expr{x.Key, x.Value} {
+					if id, ok := kv.(*ast.Ident); ok {
+						if o := info.Defs[id]; o != nil {
+							assigned[o] = append(assigned[o], x.X)
+						}
+					}
+				}
+			}
+			return true
+		})
+		var isFresh func(e ast.Expr, depth int) bool
+		isFresh = func(e ast.Expr, depth int) bool {
+			if depth > 3 {
+				return false
+			}
+			switch x := ast.Unparen(e).(type) {
+			case *ast.UnaryExpr:
+				return x.Op == token.AND && isFresh(x.X, depth)
+			case *ast.CompositeLit:
+				return true
+			case *ast.CallExpr:
+				if tv, ok := info.Types[x.Fun]; ok && tv.IsType() {
+					return len(x.Args) == 1 && isFresh(x.Args[0], depth+1)
+				}
+				return false // a call result may be the output of an earlier phase, i.e. this phase's input
+			case *ast.Ident:
+				v, ok := info.Uses[x].(*types.Var)
+				if !ok || v.IsField() || v.Pos() < d.Fd.Body.Pos() || v.Pos() > d.Fd.Body.End() {
+					return false // parameters, package variables
+				}
+				as := assigned[v]
+				if len(as) == 0 {
+					return false
+				}
+				for _, a := range as {
+					if !isFresh(a, depth+1) {
+						return false
+					}
+				}
+				return true
+			}
+			return false
+		}
+		ast.Inspect(d.Fd.Body, func(n ast.Node) bool {
+			call, ok := n.(*ast.CallExpr)
+			if !ok {
+				return true
+			}
+			callee := CalleeOf(info, call)
+			if callee == nil || m.decls[callee] == nil {
+				return true
+			}
+			for i, a := range call.Args {
+				if len(m.carrierStructs(info.TypeOf(a))) == 0 {
+					continue
+				}
+				if count[callee] == nil {
+					count[callee] = map[int]*tally{}
+				}
+				if count[callee][i] == nil {
+					count[callee][i] = &tally{}
+				}
+				count[callee][i].sites++
+				if isFresh(a, 0) {
+					count[callee][i].fresh++
+				}
+			}
+			return true
+		})
+	}
+	out := map[*types.Func]map[int]bool{}
+	for fn, byIdx := range count {
+		for i, t := range byIdx {
+			if t.sites > 0 && t.sites == t.fresh {
+				if out[fn] == nil {
+					out[fn] = map[int]bool{}
+				}
+				out[fn][i] = true
+			}
+		}
+	}
+	return out
+}
+
+// isNodeInterfaceMethod: a method of that name belongs to one of the AST interfaces (Constant,
+// Kind, …): its per-kind implementations are the clauses of a dispatch over the kinds.
+func (r *travRun) isNodeInterfaceMethod(name string) bool {
+	m := r.m
+	ifcs := []*types.Named{m.semType, m.hmsType}
+	for ci := range m.codeIfc {
+		ifcs = append(ifcs, ci)
+	}
+	for _, n := range ifcs {
+		if it, ok := n.Underlying().(*types.Interface); ok {
+			for i := 0; i < it.NumMethods(); i++ {
+				if it.Method(i).Name() == name {
+					return true
+				}
+			}
+		}
+	}
+	return false
+}
+
+// travShapeTest: the body of fd is a single `return e` where e is built (with !, &&, ||) from
+// tests of the receiver's own fields for nil / emptiness / a bool flag; returns the text of e, or "".
+func travShapeTest(info *types.Info, fd *ast.FuncDecl) string {
+	if fd.Body == nil || len(fd.Body.List) != 1 || fd.Recv == nil || len(fd.Recv.List) == 0 || len(fd.Recv.List[0].Names) == 0 {
+		return ""
+	}
+	rs, ok := fd.Body.List[0].(*ast.ReturnStmt)
+	if !ok || len(rs.Results) != 1 {
+		return ""
+	}
+	recv := info.Defs[fd.Recv.List[0].Names[0]]
+	if recv == nil {
+		return ""
+	}
+	isField := func(e ast.Expr) bool {
+		for {
+			switch x := ast.Unparen(e).(type) {
+			case *ast.StarExpr:
+				e = x.X
+				continue
+			case *ast.SelectorExpr:
+				if sel := info.Selections[x]; sel == nil || sel.Kind() != types.FieldVal {
+					return false
+				}
+				if id, ok := ast.Unparen(x.X).(*ast.Ident); ok {
+					return info.Uses[id] == recv
+				}
+				e = x.X
+				continue
+			}
+			return false
+		}
+	}
+	isZero := func(e ast.Expr) bool {
+		switch x := ast.Unparen(e).(type) {
+		case *ast.Ident:
+			return x.Name == "nil"
+		case *ast.BasicLit:
+			return x.Value == "0" || x.Value == "1" || x.Value == `""`
+		}
+		return false
+	}
+	var atom func(e ast.Expr) bool
+	atom = func(e ast.Expr) bool {
+		switch x := ast.Unparen(e).(type) {
+		case *ast.UnaryExpr:
+			return x.Op == token.NOT && atom(x.X)
+		case *ast.BinaryExpr:
+			switch x.Op {
+			case token.LAND, token.LOR:
+				return atom(x.X) && atom(x.Y)
+			case token.EQL, token.NEQ, token.GTR, token.LSS, token.GEQ, token.LEQ:
+				operand := func(o ast.Expr) bool {
+					if call, ok := ast.Unparen(o).(*ast.CallExpr); ok && len(call.Args) == 1 {
+						if id, ok := ast.Unparen(call.Fun).(*ast.Ident); ok {
+							if b, ok := info.Uses[id].(*types.Builtin); ok && b.Name() == "len" {
+								return isField(call.Args[0])
+							}
+						}
+						return false
+					}
+					return isField(o)
+				}
+				return (operand(x.X) && isZero(x.Y)) || (isZero(x.X) && operand(x.Y))
+			}
+		case *ast.SelectorExpr:
+			if t := info.TypeOf(x); t != nil {
+				if b, ok := types.Unalias(t).Underlying().(*types.Basic); ok && b.Kind() == types.Bool {
+					return isField(x)
+				}
+			}
+		}
+		return false
+	}
+	if atom(rs.Results[0]) {
+		return exprStr(rs.Results[0])
+	}
+	return ""
 }
 
 // travSoleDef: e itself, or — when e is a local variable that is assigned exactly once in
@@ -891,6 +1149,57 @@ func (r *travRun) learnLoopContext() {
 			}
 		}
 	}
+	// raising helpers: a function that increments a counter field and does not decrement it again
+	// (enterLoop()): calling it is the increment. incsOf: the increments of a body, direct or through such a helper.
+	type incSite struct {
+		field *types.Var
+		pos   token.Pos
+	}
+	directIncs := func(body ast.Node, tok token.Token) []incSite {
+		var out []incSite
+		ast.Inspect(body, func(n ast.Node) bool {
+			if x, ok := n.(*ast.IncDecStmt); ok && x.Tok == tok {
+				if se, ok := x.X.(*ast.SelectorExpr); ok {
+					if v, ok := info.Uses[se.Sel].(*types.Var); ok && v.IsField() {
+						out = append(out, incSite{v, x.Pos()})
+					}
+				}
+			}
+			return true
+		})
+		return out
+	}
+	raising := map[*types.Func][]*types.Var{}
+	for _, fd := range AllFuncDecls(an) {
+		fn, _ := info.Defs[fd.Name].(*types.Func)
+		if fn == nil || fd.Body == nil {
+			continue
+		}
+		decs := map[*types.Var]bool{}
+		for _, d := range directIncs(fd.Body, token.DEC) {
+			decs[d.field] = true
+		}
+		seen := map[*types.Var]bool{}
+		for _, ic := range directIncs(fd.Body, token.INC) {
+			if !decs[ic.field] && !seen[ic.field] {
+				seen[ic.field] = true
+				raising[fn] = append(raising[fn], ic.field)
+			}
+		}
+	}
+	incsOf := func(body ast.Node) []incSite {
+		out := directIncs(body, token.INC)
+		ast.Inspect(body, func(n ast.Node) bool {
+			if call, ok := n.(*ast.CallExpr); ok {
+				for _, fv := range raising[CalleeOf(info, call)] {
+					out = append(out, incSite{fv, call.Pos()})
+				}
+			}
+			return true
+		})
+		sort.SliceStable(out, func(i, j int) bool { return out[i].pos < out[j].pos })
+		return out
+	}
 	// pass 0: loop-entering helpers — a function that increments a counter field before it hands
 	// one of its own parameters (a block) on: calling it with a block of the handled node is the
 	// same bookkeeping, moved into a helper shared by several loop statements
@@ -909,26 +1218,11 @@ func (r *travRun) learnLoopContext() {
 		sg := fn.Type().(*types.Signature)
 		for i := 0; i < sg.Params().Len(); i++ {
 			pv := sg.Params().At(i)
-			if !m.isBlockType(pv.Type()) {
+			_, isFunc := types.Unalias(pv.Type()).Underlying().(*types.Signature)
+			if !m.isBlockType(pv.Type()) && !isFunc {
 				continue
 			}
-			var incs []struct {
-				field *types.Var
-				pos   token.Pos
-			}
-			ast.Inspect(fd.Body, func(n ast.Node) bool {
-				if x, ok := n.(*ast.IncDecStmt); ok && x.Tok == token.INC {
-					if se, ok := x.X.(*ast.SelectorExpr); ok {
-						if v, ok := info.Uses[se.Sel].(*types.Var); ok && v.IsField() {
-							incs = append(incs, struct {
-								field *types.Var
-								pos   token.Pos
-							}{v, x.Pos()})
-						}
-					}
-				}
-				return true
-			})
+			incs := incsOf(fd.Body)
 			if len(incs) == 0 {
 				continue
 			}
@@ -937,12 +1231,23 @@ func (r *travRun) learnLoopContext() {
 				if !ok {
 					return true
 				}
-				for _, a := range call.Args {
-					if id, ok := ast.Unparen(a).(*ast.Ident); ok && info.Uses[id] == pv {
-						for _, ic := range incs {
-							if ic.pos < call.Pos() {
-								enterers[fn] = append(enterers[fn], enterer{i, ic.field, ic.pos, fd})
-							}
+				handsOn := false
+				if isFunc {
+					// the callback parameter is run: `analyzeBody()`
+					if id, ok := ast.Unparen(call.Fun).(*ast.Ident); ok && info.Uses[id] == pv {
+						handsOn = true
+					}
+				} else {
+					for _, a := range call.Args {
+						if id, ok := ast.Unparen(a).(*ast.Ident); ok && info.Uses[id] == pv {
+							handsOn = true
+						}
+					}
+				}
+				if handsOn {
+					for _, ic := range incs {
+						if ic.pos < call.Pos() {
+							enterers[fn] = append(enterers[fn], enterer{i, ic.field, ic.pos, fd})
 						}
 					}
 				}
@@ -963,40 +1268,51 @@ func (r *travRun) learnLoopContext() {
 					if en.param >= len(call.Args) {
 						continue
 					}
-					se, ok := ast.Unparen(call.Args[en.param]).(*ast.SelectorExpr)
-					if !ok {
-						continue
+					// the block of the handled node that is handed over: the argument itself, or — for a
+					// callback — every block of the node that the function literal passes to an analysis call
+					var blocks []*ast.SelectorExpr
+					isNodeBlock := func(e ast.Expr) *ast.SelectorExpr {
+						se, ok := ast.Unparen(e).(*ast.SelectorExpr)
+						if !ok {
+							return nil
+						}
+						id, ok := ast.Unparen(se.X).(*ast.Ident)
+						if !ok || info.Uses[id] != f.pv || !m.isBlockType(info.TypeOf(se)) {
+							return nil
+						}
+						return se
 					}
-					id, ok := ast.Unparen(se.X).(*ast.Ident)
-					if !ok || info.Uses[id] != f.pv || !m.isBlockType(info.TypeOf(se)) {
-						continue
+					switch a := ast.Unparen(call.Args[en.param]).(type) {
+					case *ast.FuncLit:
+						ast.Inspect(a.Body, func(y ast.Node) bool {
+							if c2, ok := y.(*ast.CallExpr); ok {
+								for _, a2 := range c2.Args {
+									if se := isNodeBlock(a2); se != nil {
+										blocks = append(blocks, se)
+									}
+								}
+							}
+							return true
+						})
+					default:
+						if se := isNodeBlock(a); se != nil {
+							blocks = append(blocks, se)
+						}
 					}
-					counters[en.field] = true
-					if r.loopBody[f.ps] == nil {
-						r.loopBody[f.ps] = map[string]string{}
-					}
-					if r.loopBody[f.ps][se.Sel.Name] == "" {
-						r.loopBody[f.ps][se.Sel.Name] = fmt.Sprintf("%s hands %s.%s to %s, which increments %s before analysing it (%s)", travFuncKey(an, f.fd), f.ps.Short(), se.Sel.Name, travFuncKey(an, en.fd), en.field.Name(), r.c.Pos(en.pos))
+					for _, se := range blocks {
+						counters[en.field] = true
+						if r.loopBody[f.ps] == nil {
+							r.loopBody[f.ps] = map[string]string{}
+						}
+						if r.loopBody[f.ps][se.Sel.Name] == "" {
+							r.loopBody[f.ps][se.Sel.Name] = fmt.Sprintf("%s hands %s.%s to %s, which increments %s before analysing it (%s)", travFuncKey(an, f.fd), f.ps.Short(), se.Sel.Name, travFuncKey(an, en.fd), en.field.Name(), r.c.Pos(en.pos))
+						}
 					}
 				}
 				return true
 			})
 		}
-		type incSite struct {
-			field *types.Var
-			pos   token.Pos
-		}
-		var incs []incSite
-		ast.Inspect(f.fd.Body, func(n ast.Node) bool {
-			if x, ok := n.(*ast.IncDecStmt); ok && x.Tok == token.INC {
-				if se, ok := x.X.(*ast.SelectorExpr); ok {
-					if v, ok := info.Uses[se.Sel].(*types.Var); ok && v.IsField() {
-						incs = append(incs, incSite{v, x.Pos()})
-					}
-				}
-			}
-			return true
-		})
+		incs := incsOf(f.fd.Body)
 		if len(incs) == 0 {
 			continue
 		}
@@ -1166,6 +1482,10 @@ func (r *travRun) decide(u *travUnit, absorb map[string]string, loopPred map[str
 					infos = append(infos, fmt.Sprintf("%s.%s (%s%s) unread", s.Short(), f.Name, f.Class, map[bool]string{true: ", analysis result", false: ""}[f.Derived]))
 					continue
 				}
+				if u.shapeTest != "" {
+					infos = append(infos, fmt.Sprintf("%s.%s not inspected: the method is a shape test (`return %s`), not a traversal", s.Short(), f.Name, u.shapeTest))
+					continue
+				}
 				if u.rejects && u.role != rolePrint && u.role != rolePredicate {
 					infos = append(infos, fmt.Sprintf("%s.%s unread: the clause refuses the construct with a freshly built interrupt (fragment boundary of this engine)", s.Short(), f.Name))
 					continue
@@ -1179,7 +1499,7 @@ func (r *travRun) decide(u *travUnit, absorb map[string]string, loopPred map[str
 			}
 			r.obs = append(r.obs, ob)
 			// inline components of a field that is looked into
-			if read && f.Class != tfLayout && f.Class != tfType {
+			if read && f.Class != tfLayout && f.Class != tfType && u.shapeTest == "" {
 				for _, cs := range m.carrierStructs(f.Var.Type()) {
 					if cs == s || cs.IsSem || cs.T == m.identT {
 						continue
